@@ -61,6 +61,24 @@ def none_ident(a: int) -> bool:
           and _valid(identifiers.pick_table_ident(None, avoid=set(avoid)), avoid, True))
 
 
+_KW = sorted(set(keyword.kwlist) | {"match", "case", "type", "_"})
+KW_NAMES = sorted({f(k) for k in _KW for f in (str.lower, str.upper, str.capitalize, lambda x: " " + x, lambda x: x + " ", lambda x: "_" + x,
+                                                lambda x: x.lower() + "!", lambda x: "1" + x.lower(), lambda x: x[:1] + " " + x[1:],
+                                                lambda x: x.lower().replace("e", "é"))})
+
+
+def keyword_name(k, a, table):
+  """requested names that are, or sanitise to, Python keywords in any capitalisation (None / True / False are only
+  reached after capitalising a table id)"""
+  avoid = AVOID[a]
+  s = KW_NAMES[k]
+  r = (identifiers.pick_table_ident if table else identifiers.pick_col_ident)(s, avoid=set(avoid))
+  ok = _valid(r, avoid, table)
+  if _plain.match(s) and (s[0].isupper() or not table) and not keyword.iskeyword(s) and s.upper() not in {x.upper() for x in avoid}:
+    ok = ok and r == s
+  return ok
+
+
 def ident_list(s1: str, s2: str, s3: Optional[str], a: int) -> bool:
   """
   pre: len(s1) <= ML - 1 and len(s2) <= ML - 1 and _alpha(s1) and _alpha(s2)
@@ -80,7 +98,9 @@ OBLIGATIONS = [
   {"func": "none_ident", "cond_timeout": 60, "desc": "no requested name"},
 ]
 _ONE = [""] + list(ALPHA)
-ENUM = [{"func": "ident_list", "domains": {"a": list(range(len(AVOID))), "s1": _ONE, "s2": _ONE, "s3": [None] + list(ALPHA)},
+ENUM = [{"func": "keyword_name", "domains": {"k": list(range(len(KW_NAMES))), "a": list(range(len(AVOID))), "table": [False, True]}, "shard_by": "a",
+         "max_s": 100, "desc": "%d names derived from every Python keyword (lower / upper / capitalised / padded / prefixed / accented) as column and table names" % len(KW_NAMES)},
+        {"func": "ident_list", "domains": {"a": list(range(len(AVOID))), "s1": _ONE, "s2": _ONE, "s3": [None] + list(ALPHA)},
          "shard_by": "a", "max_s": 300, "desc": "batch of 3 (each <= 1 char or None): all valid, distinct from the avoid set and from each other"}]
 BOUNDS = {"requested name": "len <= %d over the 16-symbol alphabet %r (or None)" % (ML, ALPHA),
           "existing-name sets": [sorted(x) for x in AVOID], "batch": "3 names (lengths <= %d, %d, 1)" % (ML - 1, ML - 1)}
